@@ -467,7 +467,7 @@ def gen_gost(tier, rng, names):
 
 RANDOM_COUNTS = {            # (chacha, hchacha, gost crypt) random cases per tier, generated inside the workers
     "quick": (40000, 8000, 24000),
-    "thorough": (600000, 80000, 360000),
+    "thorough": (300000, 50000, 200000),
 }
 
 
@@ -727,6 +727,7 @@ def evaluate(spec, obs_by_build, infos, sboxes, part, names):
         if not o.get("guards", 1):
             add("oracle:%s:write-before-buffer" % entry, b, "canary intact", "canary in front of a buffer overwritten")
 
+    seen_keys = part.setdefault("_witnessed", set())
     for key, per in problems.items():
         failing = sorted(per.keys())
         # which subset of builds disagrees with the reference matters only for output comparisons;
@@ -738,6 +739,10 @@ def evaluate(spec, obs_by_build, infos, sboxes, part, names):
             full_key = key[:key.index(":wrong-output:")] + ":wrong-output:" + scope
         elif scope:
             full_key = key + ":" + scope
+        if full_key in seen_keys:
+            part["violations"].append((full_key, None))     # counted; this worker already gave a witness
+            continue
+        seen_keys.add(full_key)
         b0 = failing[0]
         passing = [b for b in ran if b not in per and b in parsed]
         fcc = {infos[b]["cc"] for b in failing}
@@ -842,6 +847,7 @@ def worker(job):
         evaluate(s, results[i], infos, sboxes, part, names)
         if not is_trivial(s):
             part["classes"].add(spec_class(s))
+    part.pop("_witnessed", None)
     return part
 
 
